@@ -105,6 +105,17 @@ func VerifPoolsFor(reps, advSel, dup int) {
 		{ObjectMeta: metav1.ObjectMeta{Name: "n2"}, Status: corev1.NodeStatus{Addresses: []corev1.NodeAddress{{Type: corev1.NodeInternalIP, Address: node6.String()}}}},
 	}
 	var named []string
+	var poolSel []metav1.LabelSelector
+	labA, labB := 0, 0 // pool labels: 0 none, 1 zone=a, 2 zone=b
+	if advSel >= 4 {
+		// advSel 4: the advertisements select pools by label (zone=a) and name none; 5: they name pool a
+		// and select by label as well (a pool may be both named and selected)
+		labA, labB = vr.Choose(3), vr.Choose(3)
+		poolSel = []metav1.LabelSelector{{MatchLabels: map[string]string{"zone": "a"}}}
+		if advSel == 5 {
+			named = []string{"pa"}
+		}
+	}
 	switch advSel {
 	case 1:
 		named = []string{"pa"}
@@ -113,13 +124,19 @@ func VerifPoolsFor(reps, advSel, dup int) {
 	case 3:
 		named = []string{"pa", "pb"}
 	}
+	pA, pB := mk("pa", wA), mk(nameB, wB)
+	for i, l := range []int{labA, labB} {
+		if l > 0 {
+			[]*metallbv1beta1.IPAddressPool{&pA, &pB}[i].Labels = map[string]string{"zone": []string{"a", "b"}[l-1]}
+		}
+	}
 	res := ClusterResources{
-		Pools: []metallbv1beta1.IPAddressPool{mk("pa", wA), mk(nameB, wB)},
+		Pools: []metallbv1beta1.IPAddressPool{pA, pB},
 		Nodes: nodes,
 		L2Advs: []metallbv1beta1.L2Advertisement{{ObjectMeta: metav1.ObjectMeta{Name: "l1"},
-			Spec: metallbv1beta1.L2AdvertisementSpec{IPAddressPools: named}}},
+			Spec: metallbv1beta1.L2AdvertisementSpec{IPAddressPools: named, IPAddressPoolSelectors: poolSel}}},
 		BGPAdvs: []metallbv1beta1.BGPAdvertisement{{ObjectMeta: metav1.ObjectMeta{Name: "b1"},
-			Spec: metallbv1beta1.BGPAdvertisementSpec{IPAddressPools: named}}},
+			Spec: metallbv1beta1.BGPAdvertisementSpec{IPAddressPools: named, IPAddressPoolSelectors: poolSel}}},
 	}
 	pools, err := poolsFor(res)
 	if err != nil {
@@ -173,6 +190,10 @@ func VerifPoolsFor(reps, advSel, dup int) {
 	// attachment of the advertisements: exactly the named pools, all pools when none is named
 	wantA := advSel == 0 || advSel == 1 || advSel == 3
 	wantB := advSel == 0 || advSel == 2 || advSel == 3
+	if advSel >= 4 {
+		wantA = labA == 1 || advSel == 5
+		wantB = labB == 1
+	}
 	vr.Assert(vhAll2((len(pa.L2Advertisements) == 1) == wantA, len(pa.L2Advertisements) <= 1, (len(pb.L2Advertisements) == 1) == wantB, len(pb.L2Advertisements) <= 1), "L2 advertisement not attached to exactly the pools it names")
 	vr.Assert(vhAll2((len(pa.BGPAdvertisements) == 1) == wantA, len(pa.BGPAdvertisements) <= 1, (len(pb.BGPAdvertisements) == 1) == wantB, len(pb.BGPAdvertisements) <= 1), "BGP advertisement not attached to exactly the pools it names")
 	for _, p := range []*Pool{pa, pb} {
